@@ -271,3 +271,12 @@ Print Assumptions pad_s_length.
 Theorem pad_s_prefix : forall s i, substring 0 (String.length s) (pad_s s i) = s.
 Proof. exact StrProof.pad_s_prefix. Qed.
 Print Assumptions pad_s_prefix.
+
+(* MID$(s, i, j) = substring (i-1) j s in the model: j characters or as many as remain; MID$(s, 1, LEN(s)) = s *)
+Theorem substring_length : forall s n m, String.length (substring n m s) = Nat.min m (String.length s - n).
+Proof. exact StrProof.substring_length. Qed.
+Print Assumptions substring_length.
+
+Theorem substring_all : forall s, substring 0 (String.length s) s = s.
+Proof. exact StrProof.substring_all. Qed.
+Print Assumptions substring_all.
